@@ -1,0 +1,11 @@
+//go:build verif
+
+// Machine-checked contracts for package dmg (comment-only; see /verif/DESIGN.md).
+
+package dmg
+
+//@ func Open
+//@   property C11
+//@   nopanic
+//@   requires f != nil
+//@   allocbound 0 10000000
